@@ -668,6 +668,12 @@ fn convert_rpx_in_block(
                     input.next_including_whitespace()?
                 };
                 match &*next {
+                    Token::ParenthesisBlock if in_calc => {
+                        // parentheses inside calc() still need the whitespace around + and -
+                        let close = ss.append_nested_block(next.clone(), input);
+                        convert_rpx_in_block(input, ss, Some(ConvertOptions { in_calc: true }));
+                        ss.append_nested_block_close(close, input);
+                    }
                     Token::CurlyBracketBlock
                     | Token::SquareBracketBlock
                     | Token::ParenthesisBlock => {
